@@ -4,7 +4,7 @@ from the evidence files: evidence/<ID>.json (last quick run) and evidence-thorou
 import json, os, re
 V = '/verif'
 SHAPE = {'C01': 'G+D+E', 'C02': 'S+E+G', 'C03': 'S', 'C04': 'S+G', 'C05': 'G×D', 'C06': 'D+E', 'C07': 'G×W', 'C08': 'G×W', 'C09': 'D×W', 'C10': 'D+G',
-         'C11': 'D', 'C12': 'D', 'C13': 'D', 'C14': 'D', 'C15': 'D', 'C16': 'D', 'C17': 'D (whole table)', 'C18': 'G', 'C19': 'S+E', 'C20': 'D'}
+         'C11': 'D', 'C12': 'D', 'C13': 'D', 'C14': 'D', 'C15': 'D', 'C16': 'D', 'C17': 'D (whole table)', 'C18': 'G+E', 'C19': 'S+E', 'C20': 'D'}
 def load(p):
     try:
         return json.load(open(p))
